@@ -288,13 +288,21 @@ class ParseContext(ParserEngine):
 
     def isolate(self, exp: Func) -> Any:
         self.states.push()
+        cutfail = False
         try:
             self.expcall(exp)
             return cstfinal(self.cst)
+        except FailedParse:
+            # a failure after a cut inside the isolated expression
+            # must commit the enclosing iteration, as in the first one
+            cutfail = self.state.cutseen
+            raise
         finally:
             ast = self.ast
             self.states.pop()
             self.ast = ast
+            if cutfail:
+                self.state.cutseen = True
 
     _isolate = isolate
 
